@@ -739,3 +739,5 @@ class C17(Check):
             return out
         finally:
             self._teardown()
+from harness import intlimlib as _intlim  # noqa: E402
+_intlim.install(C17)
